@@ -2,7 +2,7 @@
 
 correspondence: FeatureDB.bed12 / convert.to_bed12 / Feature.sequence / len(Feature) vs the Lean model
 (GffModel/Export.lean), unit layer (tables loaded from the real database).
-oracle (real code only): field arithmetic written from the property text.
+oracle (real code only): field arithmetic written from the property text (`bed_oracle`; `judge_bed12`, replayable).
 """
 import hashlib
 import os
@@ -36,7 +36,8 @@ def rand_transcript(r, idx):
     """one transcript with 0-6 exons and 0-4 CDS inside the exons; returns (lines, info)"""
     tid = "t%d" % idx
     strand = r.choice("+-")
-    pos = r.randrange(1, 500)
+    # now and then the transcript begins at the very first base of the sequence (chromStart 0 / thickStart 0)
+    pos = 1 if r.random() < 0.2 else r.randrange(1, 500)
     nex = r.randrange(0, 7)
     exons = []
     for e in range(nex):
@@ -60,8 +61,9 @@ def rand_transcript(r, idx):
     cds = []
     if exons:
         for (a, b) in exons[r.randrange(0, len(exons)):][: r.randrange(0, 5)]:
-            ca = r.randrange(a, b + 1)
-            cb = r.randrange(ca, b + 1)
+            # inside the exon; often from the exon's first base / up to its last base (the whole exon is coding)
+            ca = a if r.random() < 0.35 else r.randrange(a, b + 1)
+            cb = b if r.random() < 0.35 else r.randrange(ca, b + 1)
             cds.append((ca, cb))
     for i, (a, b) in enumerate(cds):
         lines.append(gen_db.gff_line("chr1", "CDS", a, b, strand, [("ID", ["%sc%d" % (tid, i)]), ("Parent", [tid])]))
@@ -77,9 +79,26 @@ def rand_transcript(r, idx):
                    "name": "N" + tid if name else None, "score": score}
 
 
+def feats_of(info, types):
+    """the generator's record of the transcript's children of the given featuretypes, ascending (start, end)"""
+    table = {"exon": info["exons"], "CDS": info["cds"], "UTR": info["utr"]}
+    out = []
+    for t in dict.fromkeys(types or []):
+        out += [tuple(x) for x in table.get(t, [])]
+    return sorted(out)
+
+
+def start_ties(feats):
+    """two features with the same start and different ends: `ORDER BY start` leaves their order open"""
+    return any(a[0] == b[0] and a[1] != b[1] for a, b in zip(feats, feats[1:]))
+
+
 def bed_oracle(info, block, thick, thin, name_field, got):
-    """returns None or a description; got = string or ('raised', exc name)"""
-    blocks = info["exons"] if block == ["exon"] else info["cds"] if block == ["CDS"] else []
+    """returns None or a description; got = string or ('raised', exc name).  `block` may name several featuretypes
+    (the documented block_featuretype=["exon", "CDS"]): the blocks are then all those children in ascending order -
+    nested blocks included - and "the blocks span the feature" is what the property text says about a returned line:
+    the first block starts at chromStart and the LAST block (the one that starts last) ends at chromEnd."""
+    blocks = feats_of(info, block)
     blocks = blocks or [(info["start"], info["end"])]
     spans = blocks[0][0] == info["start"] and blocks[-1][1] == info["end"]
     if isinstance(got, tuple):
@@ -115,11 +134,64 @@ def bed_oracle(info, block, thick, thin, name_field, got):
         return "blockStarts %r" % starts
     if (info["start"] - 1) + starts[-1] + sizes[-1] != info["end"]:
         return "last block does not end at chromEnd"
-    tk = info["cds"] if thick == ["CDS"] else info["exons"] if thick == ["exon"] else []
+    tk = feats_of(info, thick)
     if thick and tk:
         if int(f[6]) != tk[0][0] - 1 or int(f[7]) != tk[-1][1]:
             return "thickStart/thickEnd %r not taken from the thick features" % f[6:8]
     return None
+
+
+def directed_transcripts():
+    """transcripts at the edges the random generator reaches only now and then (each with its generator record):
+    coding region beginning at base 1 of the sequence on either strand (thickStart 0); single-exon transcript with an
+    internal CDS (with block_featuretype=["exon", "CDS"] the block that starts last ends before the transcript does:
+    the blocks do not span the feature); two exons whose CDS reach the exon ends (nested blocks that do span it);
+    CDS nested at the transcript start only"""
+    specs = [("dA", "+", (1, 450), [(1, 120), (300, 450)], [(1, 120), (300, 400)]),
+             ("dB", "-", (1, 500), [(1, 200), (350, 500)], [(1, 200), (350, 420)]),
+             ("dC", "-", (2000, 2600), [(2000, 2600)], [(2100, 2400)]),
+             ("dD", "+", (5000, 5800), [(5000, 5300), (5500, 5800)], [(5100, 5300), (5510, 5800)]),
+             ("dE", "+", (7000, 7900), [(7000, 7300), (7500, 7900)], [(7100, 7200), (7600, 7700)]),
+             ("dF", "+", (1, 90), [(1, 90)], [(1, 30)])]
+    lines, infos = [], []
+    for tid, strand, (ts, te), exons, cds in specs:
+        lines.append(gen_db.gff_line("chr1", "mRNA", ts, te, strand, [("ID", [tid]), ("Name", ["N" + tid])]))
+        for i, (a, b) in enumerate(exons):
+            lines.append(gen_db.gff_line("chr1", "exon", a, b, strand, [("ID", ["%se%d" % (tid, i)]), ("Parent", [tid])]))
+        for i, (a, b) in enumerate(cds):
+            lines.append(gen_db.gff_line("chr1", "CDS", a, b, strand, [("ID", ["%sc%d" % (tid, i)]), ("Parent", [tid])]))
+        infos.append({"id": tid, "start": ts, "end": te, "strand": strand, "exons": exons, "cds": cds, "utr": [],
+                      "name": "N" + tid, "score": "."})
+    return lines, infos
+
+
+def judge_bed12(ctx, res, case, db=None):
+    """one bed12 call judged by `bed_oracle`; case = the file's lines, the generator's record of the transcript and the
+    arguments.  Returns what the real code returned (string or ('raised', name)) and the reply text for the model;
+    (None, None) when the oracle cannot judge the call (block features tied on their start)"""
+    info, block, thick, thin = case["info"], case["block_featuretype"], case["thick_featuretype"], case["thin_featuretype"]
+    if db is None:
+        path = dbside.write_lines(os.path.join(ctx.scratch, "c18-replay.gff3"), case["input"])
+        db, rep = dbside.py_create(path, dbside.Cfg())
+        if db is None:
+            common.fail(res, case, "create_db_raised", "create_db raised: " + rep)
+            return None, None
+    if start_ties(feats_of(info, block)) or start_ties(feats_of(info, thick)):
+        return None, None
+    arg = db[info["id"]] if case["argument"] == "Feature" else info["id"]
+    try:
+        got = db.bed12(arg, block_featuretype=block, thick_featuretype=thick, thin_featuretype=thin,
+                       name_field=case["name_field"])
+        gm = "ok " + enc(got)
+    except Exception as ex:
+        got = ("raised", type(ex).__name__)
+        gm = "err " + dbside.err_name(ex)
+    why = bed_oracle(info, block, thick, thin, case["name_field"], got)
+    if why:
+        kind = ("bed12_raised" if why.startswith("raised") else "bed12_no_valueerror" if why.startswith("no ValueError")
+                else "bed12_fields_wrong")
+        common.fail(res, case, kind, "bed12: " + why, error=(got[1] if isinstance(got, tuple) else None), returned=got)
+    return got, gm
 
 
 def run(ctx):
@@ -128,19 +200,25 @@ def run(ctx):
     from gffutils.feature import Feature
     res = common.Result("C18")
     r = ctx.rng("c18")
-    res.rule = ("transcripts with 0-6 exons and 0-4 CDS on either strand, spans matching or not, Name present or absent, "
+    res.rule = ("transcripts with 0-6 exons and 0-4 CDS on either strand (every run: transcripts whose coding region begins at "
+                "base 1 of the sequence, and block_featuretype lists of two featuretypes giving nested blocks that do / do "
+                "not span the transcript), spans matching or not, Name present or absent, "
                 "block/thick/thin featuretype choices, id or Feature argument; (start, end, strand, use_strand) windows on a "
                 "random 500-base ACGTN reference, on a reference holding each of the 30 IUPAC codes (both cases) once "
                 "(every single-base window on '-') and on a random 300-base IUPAC reference for sequence(); len(). "
                 "non-trivial = distinct (transcript, option) call, distinct minus-strand window with an ambiguity code")
     cmds, exp, tags = [], [], []
     nsets = 25 if not ctx.thorough else 300
-    for si in range(nsets):
+    BLOCKS = [["exon"], ["CDS"], ["exon", "CDS"], ["CDS", "exon"]]
+    for si in range(-1, nsets):
         lines, infos = [], []
-        for t in range(r.randrange(1, 5)):
-            l, info = rand_transcript(r, t)
-            lines += l
-            infos.append(info)
+        if si < 0:
+            lines, infos = directed_transcripts()
+        else:
+            for t in range(r.randrange(1, 5)):
+                l, info = rand_transcript(r, t)
+                lines += l
+                infos.append(info)
         path = dbside.write_lines(os.path.join(ctx.scratch, "c18.gff3"), lines)
         db, rep = dbside.py_create(path, dbside.Cfg())
         if db is None:
@@ -148,31 +226,39 @@ def run(ctx):
             continue
         cmds.append(dbside.cmd_load(db)); exp.append("ok"); tags.append(("load", ""))
         for info in infos:
-            for _ in range(4):
-                block = r.choice([["exon"], ["exon"], ["CDS"]])
-                mode = r.choice(["thick", "thick", "thin", "both"])
-                thick = r.choice([["CDS"], ["exon"]]) if mode in ("thick", "both") else None
-                thin = ["UTR"] if mode in ("thin", "both") else None
-                nf = r.choice(["ID", "Name", "absent"])
-                as_feature = r.random() < 0.5
-                inp = {"lines": lines, "transcript": info["id"], "block_featuretype": block, "thick_featuretype": thick,
-                       "thin_featuretype": thin, "name_field": nf, "argument": "Feature" if as_feature else "id"}
+            if si < 0:
+                # every block list x thick CDS / exon x id / Feature, and the thin form
+                options = [(block, thick, None, nf, af) for block in BLOCKS for thick in (["CDS"], ["exon"])
+                           for nf, af in (("ID", False), ("Name", True))]
+                options += [(block, None, ["UTR"], "absent", False) for block in BLOCKS[:3]]
+            else:
+                options = []
+                for _ in range(4):
+                    block = r.choice([["exon"], ["exon"], ["CDS"], ["exon", "CDS"]])
+                    mode = r.choice(["thick", "thick", "thin", "both"])
+                    thick = r.choice([["CDS"], ["exon"]]) if mode in ("thick", "both") else None
+                    thin = ["UTR"] if mode in ("thin", "both") else None
+                    options.append((block, thick, thin, r.choice(["ID", "Name", "absent"]), r.random() < 0.5))
+            for block, thick, thin, nf, as_feature in options:
+                case = {"scenario": "bed12", "input": lines, "info": info, "transcript": info["id"],
+                        "block_featuretype": block, "thick_featuretype": thick, "thin_featuretype": thin, "name_field": nf,
+                        "argument": "Feature" if as_feature else "id", "no_shrink": True}
+                got, gm = judge_bed12(ctx, res, case, db=db)
+                if gm is None:
+                    res.count("bed12_block_features_tied_on_start(not judged)")
+                    continue
                 res.evaluations += 1
-                res.nontriv((si, info["id"], str(block), mode, nf, as_feature))
-                arg = db[info["id"]] if as_feature else info["id"]
-                try:
-                    got = db.bed12(arg, block_featuretype=block, thick_featuretype=thick, thin_featuretype=thin,
-                                   name_field=nf)
-                    gm = "ok " + enc(got)
-                except Exception as ex:
-                    got = ("raised", type(ex).__name__)
-                    gm = "err " + dbside.err_name(ex)
-                why = bed_oracle(info, block, thick, thin, nf, got)
-                if why:
-                    res.oracle_failures.append(("bed12: " + why, dict(inp, returned=got)))
+                res.nontriv((si, info["id"], str(block), str(thick), str(thin), nf, as_feature))
+                res.count("bed12_block_" + "+".join(block))
+                if len(block) > 1 and len(feats_of(info, block)) > 1:
+                    fb = feats_of(info, block)
+                    spans = fb[0][0] == info["start"] and fb[-1][1] == info["end"]
+                    res.count("bed12_nested_blocks_" + ("spanning" if spans else "last_block_ends_before_chromEnd"))
+                if info["start"] == 1 and info["cds"] and min(info["cds"])[0] == 1 and thick == ["CDS"]:
+                    res.count("bed12_thickStart_0")
                 cmds.append("bed12 %s %s %s %s %s ~" % (enc(info["id"]), enc_list(block), enc_list(thick or []),
                                                         enc_list(thin or []), enc(nf)))
-                exp.append(gm); tags.append(("bed12", repr(inp)))
+                exp.append(gm); tags.append(("bed12", repr({k: v for k, v in case.items() if k != "info"})))
             # to_bed12
             try:
                 got = convert.to_bed12(info["id"] if r.random() < 0.5 else db[info["id"]], db, child_type="exon",
@@ -242,7 +328,10 @@ def run(ctx):
             res.corr_checked += 1
             if m != e:
                 res.corr_disagreements.append((comp, inp[:900], m[:300], e[:300]))
-    res.assumptions = ["block / thick / thin children have pairwise different starts (SQL leaves ties unordered)",
+    res.assumptions = ["block / thick / thin children have pairwise different starts (SQL leaves ties unordered): a call whose "
+                       "block features (of several featuretypes) tie on their start with different ends is not judged",
+                       "with several block featuretypes 'the blocks span the feature' is read as the property text puts it for "
+                       "a returned line: first block starting at chromStart, the block that starts last ending at chromEnd",
                        "reference sequences over the IUPAC nucleotide codes ACGTRYKMSWBDHVN in both cases (no U, gap or "
                        "other symbols: pyfaidx refuses to complement those); 1 <= start <= end <= len(sequence)",
                        "exactly one of thick_featuretype / thin_featuretype is given (both -> ValueError; neither -> the "
@@ -282,12 +371,15 @@ def judge(ctx, case):
     if case.get("scenario") == "sequence":
         judge_sequence(ctx, res, case)
         res.evaluations = 1
+    elif case.get("scenario") == "bed12":
+        judge_bed12(ctx, res, case)
+        res.evaluations = 1
     return res
 
 
 def replay(ctx, payload):
     inp = payload.get("input")
-    if isinstance(inp, dict) and inp.get("scenario") == "sequence":
+    if isinstance(inp, dict) and inp.get("scenario") in ("sequence", "bed12"):
         return common.replay_failure("C18", payload, lambda case: judge(ctx, case))
     res = common.Result("C18")
     print("replay:", payload.get("what"), payload.get("input"))
